@@ -170,9 +170,11 @@ def run(ctx):
 
     # baseline: every workload alone in its own process
     base = {}
-    procs = []
+    from concurrent.futures import ThreadPoolExecutor
+    with ThreadPoolExecutor(4) as ex:      # four baseline processes at a time (each is one context on one thread)
+        futs = {i: ex.submit(_run, emb, d, "run", _spec_text(works, [(0, 0, [i])]), "base%d" % i, (), 120) for i in works}
     for i in works:
-        rc, out, err, rp = _run(emb, d, "run", _spec_text(works, [(0, 0, [i])]), "base%d" % i, timeout=120)
+        rc, out, err, rp = futs[i].result()
         R = _parse_R(out)
         if rc != 0 or (0, 0) not in R:
             ctx.broken("baseline:" + tname[i], "workload does not run alone: rc=%s %s" % (rc, err[-300:]), replay=rp)
